@@ -3,6 +3,8 @@
 \* license texts of <= 2 lines over E I ID P); one call the API REFUSES after 0, 1 or 2 add_* calls (RejAt; every
 \* kind: BadCallsOn / BadCallsDoc) followed by add_* calls up to 2 paragraphs (RejThen); refused calls among the
 \* edits of the re-parsed documents of <= 2 paragraphs (RejEditAt)
+\* -- among those calls: the ones the format does not settle (MayReject: a look-alike of white space inside a pattern /
+\* a synopsis / a custom value), with BOTH outcomes (acc), and the faults of caller-supplied objects (kind "fault")
 CONSTANTS
   Mode = "doc"
   Alphabet = {}
